@@ -179,19 +179,24 @@ def atan2_axes(chk, F, ty):
             chk.undecide(key, "unsupported: %s" % ex, body_loc(F, body))
 
 
+TINY = Fr(1, 2 ** 1074)   # the smallest positive f64: the immediate floating-point neighbours of 0
+
+
 def unary_at_zero(chk, F, ty):
     imp = algebra.dualnum_impl(F, ty)
     for name in ("exp_m1", "ln_1p", "sph_j0", "sph_j1", "sph_j2"):
         body = F.impl_item(imp, name) if imp else None
-        key = "special|%s|%s|x=0" % (ty, name)
         if body is None:
-            chk.undecide(key, "missing anchor")
+            chk.undecide("special|%s|%s|x=0" % (ty, name), "missing anchor")
             continue
-        try:
-            paths = run_b(F, body, lambda: [b_operand(ty, of_const(0))])
-            verdict(chk, key, "%s at 0: every part finite" % name, F, body, ty, paths)
-        except Unsupported as ex:
-            chk.undecide(key, "unsupported: %s" % ex, body_loc(F, body))
+        for pname, val in (("x=0", Fr(0)), ("x=+tiny", TINY), ("x=-tiny", -TINY)):
+            key = "special|%s|%s|%s" % (ty, name, pname)
+            try:
+                paths = run_b(F, body, lambda: [b_operand(ty, BV(["zero"] if val == 0 else (["pos"] if val > 0 else ["neg"]), ex=val))])
+                verdict(chk, key, "%s at %s (0 and its immediate floating-point neighbours, products of tiny numbers underflow to 0): "
+                        "every part finite" % (name, pname), F, body, ty, paths)
+            except Unsupported as ex:
+                chk.undecide(key, "unsupported: %s" % ex, body_loc(F, body))
 
 
 def bessel_at_zero(chk, F, ty):
